@@ -65,6 +65,13 @@ impl Check for C20 {
                     }
                 }
             }
+            if r.chance(1, 4) {
+                // a resize (half of them to the current size) right before the item
+                let (c0, r0) = evs.iter().rev().find_map(|e| if let Event::Resize { cols, rows, .. } = e { Some((*cols, *rows)) } else { None }).unwrap_or((cfg.cols, cfg.rows));
+                let (c1, r1) = if r.chance(1, 2) { (c0, r0) } else { gen_resize(r, c0, r0, mc, mr) };
+                evs.push(Event::Resize { cols: c1, rows: r1, drain: crate::trace::Drain::All });
+                st.bump("resize_right_before_item");
+            }
             evs.push(Event::Inert { s, cuts });
             if r.chance(1, 3) {
                 let (_f, tok) = gen_token(r, cfg.cols, cfg.rows, &o.profile);
@@ -82,9 +89,16 @@ impl Check for C20 {
             let mut live = Live::new(&t.config);
             let mut items = 0u64;
             let mut d = crate::rng::Digest::new();
+            // changed-line flags left pending by feed(char) calls (which report nothing themselves)
+            let mut pending_from_feed_loop = false;
             for (i, e) in t.events.iter().enumerate() {
                 let Event::Inert { s, cuts } = e else {
                     live.apply(e);
+                    match e {
+                        Event::Feed { .. } => pending_from_feed_loop = true,
+                        Event::FeedStr { .. } | Event::Resize { .. } => pending_from_feed_loop = false,
+                        _ => {}
+                    }
                     continue;
                 };
                 if live.parser.state != State::Ground {
@@ -106,8 +120,12 @@ impl Check for C20 {
                     live.apply(e);
                     continue;
                 }
-                // report-and-clear whatever earlier feed(char) calls left pending
-                let _ = live.vt.feed_str("");
+                // report-and-clear whatever earlier feed(char) calls left pending (only then: every
+                // feed_str / resize call has reported and cleared its own changes)
+                if pending_from_feed_loop {
+                    let _ = live.vt.feed_str("");
+                    pending_from_feed_loop = false;
+                }
                 let before_view = live.vt.view().to_vec();
                 let before_lines = live.vt.lines().to_vec();
                 let before_cursor = live.vt.cursor();
@@ -164,7 +182,7 @@ impl Check for C20 {
             real: vec!["avt::Vt", "avt::parser::Parser (lock-step)"],
             simulated: vec!["App (inert items)", "Pipe (cuts inside the item)"],
             model: vec!["RefParser (validates the item)"],
-            probes: vec!["item_osc", "item_dcs", "item_sos_pm_apc", "item_csi", "item_esc", "item_c0_c1", "item_cut_inside"],
+            probes: vec!["resize_right_before_item", "item_osc", "item_dcs", "item_sos_pm_apc", "item_csi", "item_esc", "item_c0_c1", "item_cut_inside"],
             fault_kinds: vec!["item_cut_inside", "feed_char_calls", "resize_events"],
         }
     }
